@@ -21,7 +21,7 @@ let show_msg m = match m with
   | MBitsDone -> "BITSDONE"
 let show_reason r = match r with
   | RLen -> "len" | RUnknownId -> "id" | RPieceRole -> "piece-role" | RPieceShort -> "piece-short"
-  | RExtBad -> "ext" | RFull -> "full" | RHandler -> "handler" | REof -> "eof"
+  | RExtBad -> "ext" | RFull -> "full" | RHandler -> "handler" | REof -> "eof" | RPolicy -> "policy"
 let show_eff e = match e with EMsg m -> show_msg m | EClose r -> "CLOSE:" ^ show_reason r | EFatal -> "FATAL"
 let b01 b = if b then "1" else "0"
 let show_digest h mode buf =
@@ -50,8 +50,20 @@ let () = each_line (fun line ->
   let np = int_of_string (g "np") in
   let bits0 = if role = Meta then [true] else if g "bits" = "-" then List.init np (fun _ -> false) else bits_of (g "bits") in
   let pre = g "pre" = "1" in
+  (* close policy probed on the implementation: pol=h:<len>:<id>=<0|1>,x:<ty>:<elen>=<0|1>,...  Every key the decoder
+     consults is logged; a key that is not in the table counts as "continue" and is reported in unk= *)
+  let ptab = Hashtbl.create 32 in
+  let seen = Hashtbl.create 32 in
+  (match (try Hashtbl.find kv "pol" with Not_found -> "-") with
+   | "-" -> ()
+   | t -> List.iter (fun e -> match String.index_opt e '=' with
+                | Some i -> Hashtbl.replace ptab (String.sub e 0 i) (String.sub e (i + 1) (String.length e - i - 1) = "1")
+                | None -> ()) (String.split_on_char ',' t));
+  let look key = Hashtbl.replace seen key (); (try Hashtbl.find ptab key with Not_found -> false) in
+  let pol = { p_hdr = (fun len id -> look ("h:" ^ string_of_n len ^ ":" ^ string_of_n id));
+              p_ext = (fun ty elen -> look ("x:" ^ string_of_n ty ^ ":" ^ string_of_n elen)) } in
   let c = { c_role = role; c_npieces = n_of_int np; c_done = isdone; c_can_unchoke = (g "cu" = "1");
-            c_ext_verdicts = bits_of (g "xv");
+            c_ext_verdicts = bits_of (g "xv"); c_pol = pol;
             c_ext_reply = bits_of (try Hashtbl.find kv "xr" with Not_found -> "-") } in
   let h0 = hinit c bits0 pre pre false in
   let eof = (try Hashtbl.find kv "eof" with Not_found -> "0") = "1" in
@@ -88,4 +100,6 @@ let () = each_line (fun line ->
         ((if eof then "closed=1" else show_digest h m b),
          String.concat " " (List.map show_eff es) ^ (if eof && m <> RClosed then " CLOSE:eof" else ""))
     | PFault -> ("FAULT", "FAULT") | POut -> ("OUTOFFUEL", "OUTOFFUEL") in
-  String.concat " / " digs ^ " || spec: " ^ spec ^ " ;; " ^ effs)
+  let keys = List.sort compare (Hashtbl.fold (fun k () acc -> k :: acc) seen []) in
+  let unk = List.filter (fun k -> not (Hashtbl.mem ptab k)) keys in
+  String.concat " / " digs ^ " || spec: " ^ spec ^ " ;; " ^ effs ^ " ;; unk=" ^ (if unk = [] then "-" else String.concat "," unk))
